@@ -116,7 +116,53 @@ def _(self, key):
 prop("C14", fucs=["liquer.store.PrefixStore.translate_key", "liquer.store.PrefixStore.contains", "liquer.store.PrefixStore.is_dir",
                   "liquer.store.KeyTranslatingStore.get_bytes", "liquer.store.KeyTranslatingStore.store",
                   "liquer.store.KeyTranslatingStore.remove", "liquer.store.KeyTranslatingStore.listdir",
-                  "liquer.store.KeyTranslatingStore.to_root_key"],
+                  "liquer.store.KeyTranslatingStore.to_root_key", "liquer.store.MountPointStore.route_to"],
      lemmas=["strip_unstrip", "unstrip_strip"],
      static=[("inherits", "PrefixStore", "KeyTranslatingStore", ["get_bytes", "get_metadata", "store", "store_metadata", "remove", "removedir",
                                                                   "listdir", "keys", "makedir", "to_root_key"])])
+
+
+# ------------------------------------------------------------------ routing: the last matching mount wins, else the default store
+classdef("Route", tuple_fields=["prefix", "store"], fields=dict(prefix=Str, store=Ref("Store")))
+classdef("liquer.store.MountPointStore", bases=["Store"], fields=dict(default_store=Opt(Ref("Store")), routing_table=Seq(Ref("Route"))))
+MP = Ref("MountPointStore")
+RT = Seq(Ref("Route"))
+
+
+@spec(params=dict(s=Ref("Store"), key=Str), returns=Bool, uninterpreted=True)
+def supports(s, key):
+    """is_supported is a pure observer of the mounted store"""
+    return supports(s, key)
+
+
+@interface("Store.is_supported", params=dict(self=Ref("Store"), key=Str), returns=Bool, pure=True)
+def _(self, key):
+    ensures(result == supports(self, key))
+
+
+@spec(params=dict(e=Ref("Route"), key=Str), returns=Bool, macro=True)
+def matches(e, key):
+    """a mount serves its own prefix and every supported key below it"""
+    pfx = e.prefix if e.prefix.endswith("/") else e.prefix + "/"
+    return key == e.prefix or (key.startswith(pfx) and supports(e.store, key))
+
+
+@spec(params=dict(rt=RT, key=Str, n=Int), returns=Int, reads=[("Route", "prefix"), ("Route", "store")])
+def route_idx(rt, key, n):
+    """index of the LAST mount among the first n that matches the key, or -1"""
+    if n <= 0:
+        return -1
+    if matches(rt[n - 1], key):
+        return n - 1
+    return route_idx(rt, key, n - 1)
+
+
+@contract("liquer.store.MountPointStore.route_to", params=dict(self=MP, key=Str), returns=Ref("Store"))
+def _(self, key):
+    n = len(self.routing_table)
+    r = route_idx(self.routing_table, key, n)
+    raises(KeyRouteNotFoundStoreException, when=r < 0 and isnone(self.default_store), label="no-mount-matches-and-no-default-store")
+    invariant(0, lambda: route_idx(self.routing_table, key, len(self.routing_table)) == route_idx(self.routing_table, key, len(self.routing_table) - _i),
+              "no-later-mount-matches")
+    ensures(implies(r >= 0, result is self.routing_table[r].store), "the-last-matching-mount-wins")
+    ensures(implies(r < 0, result is unopt(self.default_store)), "otherwise-the-default-store")
